@@ -120,8 +120,14 @@ def draw_plan(rng: random.Random, prop: str, tier: str = "quick", methods=None, 
         elif k == "ghe_new":
             # a stand-alone field object (live single-height g-function until `regen`), then a burst of calls on it
             ops.append({"op": "ghe_new", "mgr": "G", "construct_at": rng.choice(["max", "max", "min", "mid"])})
-            for _ in range(rng.randint(2, 5)):
-                kk = rng.choice(["sim", "sim", "size", "regen", "sim_hourly" if hourly_ok else "sim", "abort_size"])
+            if rng.random() < 0.4:
+                # the live-g-function flow: size with the single-height curve, refresh the g-functions, size again
+                burst = rng.choice([["size", "regen", "size"], ["sim", "size", "regen", "size", "sim"],
+                                    ["size", "sim", "regen", "sim", "size"], ["abort_size", "regen", "size"]])
+            else:
+                burst = [rng.choice(["sim", "sim", "size", "regen", "sim_hourly" if hourly_ok else "sim", "abort_size"])
+                         for _ in range(rng.randint(2, 5))]
+            for kk in burst:
                 if kk == "sim":
                     ops.append({"op": "sim", "mgr": "G", "method": "HYBRID", "H": gen.r3(rng.uniform(lo, hi))})
                 elif kk == "sim_hourly":
@@ -450,6 +456,9 @@ def _check_find(ctx: Ctx, i, op, out, cfg):
     """Oracles evaluated after every completed find-like operation."""
     prop = ctx.prop
     oc = outcome_class(cfg, out)
+    ctx.bump("finds_completed_with_design" if "ok" in out else "finds_raised")
+    if "exc" in out and out["exc"] != "ValueError":
+        ctx.bump(f"finds_raised_unexpected_type:{out['exc']}")
     ctx.sets["outcome_classes"].add(oc)
     ctx.bump(f"outcome:{oc}")
     method = cfg["geometry"]["method"]
